@@ -257,6 +257,17 @@ class World(BaseWorld):
                     spec['kw']['grid'] = list(gdom)
             if ro.random() < 0.3:
                 a, b = b, a
+            r_ = ro.random()
+            if len(types) > 1 and r_ < 0.3:
+                # group assignments of other shapes than [types, types]: a list against a single name, two sub-lists
+                shape = ro.choice(['list_single', 'single_list', 'sublists'])
+                if shape == 'list_single':
+                    return {'op': 'set_' + k, 'k1': list(types), 'k2': a, 'spec': spec}
+                if shape == 'single_list':
+                    return {'op': 'set_' + k, 'k1': a, 'k2': list(types), 'spec': spec}
+                sub1 = [t for t in types if ro.random() < 0.6] or [a]
+                sub2 = [t for t in types if ro.random() < 0.6] or [b]
+                return {'op': 'set_' + k, 'k1': sub1, 'k2': sub2, 'spec': spec}
             return {'op': 'set_' + k, 'k1': a, 'k2': b, 'spec': spec}
         if k == 'domain':
             d = sysgen.gen_domain(ro, small=True)
@@ -654,8 +665,10 @@ class World(BaseWorld):
                 for a in listify(op['k1']):
                     for b in listify(op['k2']):
                         rec['pairs'][pairkey(types, a, b)][what] = copy.deepcopy(op['spec'])
-                if isinstance(op['k1'], list):
+                if isinstance(op['k1'], list) and isinstance(op['k2'], list):
                     ctx.probe('list_x_list_assignment')
+                elif isinstance(op['k1'], list) or isinstance(op['k2'], list):
+                    ctx.probe('list_x_single_assignment')
                 edits_since_create[0] += 1
             elif name == 'write':
                 if rec['domain'] is None:
@@ -796,7 +809,7 @@ class World(BaseWorld):
                 'missing_only_closure', 'missing_only_omega', 'create_or_solve_after_edit_after_create', 'inplace_domain_length_edit',
                 'inplace_domain_edit', 'file_rewritten_between_creates', 'solve_old_handle_after_edit', 'list_x_list_assignment',
                 'converged_solve_compared', 'solve_bit_identical_to_fresh', 'sweep_guess_previous_solution', 'stale_table_at_create',
-                'rank1', 'rank2', 'rank3', 'handle_created', 'solve_aborted_then_retried', 'untouched_handle_solved_later']
+                'rank1', 'rank2', 'rank3', 'handle_created', 'solve_aborted_then_retried', 'untouched_handle_solved_later', 'list_x_single_assignment']
 
     def rule(self):
         return ('Each run = one seed -> an empty System (1-3 types) + a history: the assignments that establish a drawn target system (single keys '
